@@ -15,9 +15,9 @@ Print Assumptions C05_verify_kb_iff.
 Theorem C05_accept_iff :
   forall O token kbpol hdr claims ds,
     verifier_verify_raw O token kbpol = Val (hdr, claims, ds) <->
-    exists jwt kb a alg,
+    exists jwt kb alg,
       sd_jwt_parts token = (jwt, ds, kb) /\ o_jwt O jwt = Val (hdr, claims) /\
-      jget "_sd_alg" claims = JStr a /\ parse_halg a = Some alg /\
+      declared_halg claims = Some alg /\
       ( (kb_required claims = false /\ kb = None) \/
         (kb_required claims = true /\ exists k h' kc hs,
             kb = Some k /\ kbpol = true /\ verify_kb O k (jget "cnf" claims) = Val (h', kc) /\
@@ -49,8 +49,8 @@ Print Assumptions C05_no_policy_rejected.
 Theorem C05_accepted_commits :
   forall O token kbpol hdr claims ds jwt k,
     verifier_verify_raw O token kbpol = Val (hdr, claims, ds) -> sd_jwt_parts token = (jwt, ds, Some k) ->
-    exists h' kc a alg, verify_kb O k (jget "cnf" claims) = Val (h', kc) /\ jget "_sd_alg" claims = JStr a /\
-       parse_halg a = Some alg /\ jget "sd_hash" kc = JStr (o_hash O alg (drop_kb token)).
+    exists h' kc alg, verify_kb O k (jget "cnf" claims) = Val (h', kc) /\
+       declared_halg claims = Some alg /\ jget "sd_hash" kc = JStr (o_hash O alg (drop_kb token)).
 Proof. exact accepted_commits. Qed.
 Print Assumptions C05_accepted_commits.
 
